@@ -1530,7 +1530,7 @@ Proof.
   pose proof (rule_general_top s cx _ ps _ _ S1) as S2.
   assert (LS : length s = length (unparse_items2 items) + length tr) by (unfold s, unparse2; apply app_length).
   unfold parse_top. fold s ps.
-  rewrite (run_mono s false cx _ (parse_fuel s) _ _ S2 ltac:(discriminate)) by (unfold parse_fuel; lia).
+  rewrite (run_mono s false cx _ (parse_fuel s cx) _ _ S2 ltac:(discriminate)) by (pose proof (parse_fuel_ge s cx); lia).
   unfold doc_result2, tree_of2. cbn [parse_content d_items2 d_trail2 fst snd]. fold ps. fold A.
   assert (PA : snd A = pe) by (unfold A; rewrite absorb_pos2; reflexivity). rewrite PA.
   fold s. rewrite LS. reflexivity.
